@@ -3,3 +3,10 @@ package main
 import "github.com/varlink/go/varlink/idl"
 
 func idlNew(d string) (interface{}, error) { return idl.New(d) }
+
+func idlName(t interface{}) string {
+	if i, ok := t.(*idl.IDL); ok && i != nil {
+		return i.Name
+	}
+	return ""
+}
